@@ -147,6 +147,9 @@ def build(ep, cls, rng):
         b = q_from_float(rng.standard_normal((m + 1 if mis else m, 1, 4)))
         prec = "left_lu" if ep.endswith("left_lu") else None
         return (lambda: sv.QGMRESSolver(tol=1e-8, preconditioner=prec).solve(A, b)), [A, b]
+    if ep == "deeplinear_compute":
+        lay = [n + 1 if mis else n, m]
+        return (lambda: sv.DeepLinearNewtonSchulz(max_iter=1).compute(A, lay)), [A]
     if ep == "sparse_scalar_mul":
         Ssp = _sp(F)
         c = {"complex_scalar": 1 + 2j, "numpy_complex_scalar": np.complex128(2j), "nonnumeric_scalar": "2", "quaternion_scalar": np.quaternion(0, 1, 0, 0)}.get(cls, (2, 0.5, np.float64(3.0))[int(rng.integers(0, 3))])
